@@ -4,13 +4,14 @@ Import ListNotations.
 From TV Require Import C36.Model C36.Proofs.
 
 (* ---------- the gathering loop equals the specification ---------- *)
-Lemma m_loop_spec ins cs : forall os acc out log,
+Lemma m_loop_spec qs ins cs : forall os acc out log,
   child_outs ins cs = Some os ->
-  match m_loop ins cs acc out log with
-  | (acc', out', _) =>
+  match m_loop qs ins cs acc out log with
+  | (acc', out', log') =>
       match out with
-      | Some x => out' = Some x
+      | Some x => out' = Some x /\ log' = log + loud_count qs os
       | None =>
+          log' = log + extra_logged qs os /\
           match gather os with
           | Res l => out' = None /\ acc' = acc ++ l
           | Exn e => out' = Some (Exn e)
@@ -20,25 +21,27 @@ Lemma m_loop_spec ins cs : forall os acc out log,
   end.
 Proof.
   induction cs as [|c cs IH]; intros os acc out log H; simpl in H.
-  - inversion H; subst. simpl. destruct out; auto. split; auto. rewrite app_nil_r; auto.
+  - inversion H; subst. simpl. destruct out; auto. repeat split; auto. rewrite app_nil_r; auto.
   - destruct (nth_error ins c) as [[o|]|] eqn:E; try discriminate.
     destruct (child_outs ins cs) as [os'|] eqn:E2; try discriminate.
     inversion H; subst. simpl. unfold result_of. rewrite E.
     destruct o as [v|e|].
     + specialize (IH os' (acc ++ [v]) out log eq_refl).
-      destruct (m_loop ins cs (acc ++ [v]) out log) as [[acc' out'] log'].
-      destruct out; auto. simpl.
+      destruct (m_loop qs ins cs (acc ++ [v]) out log) as [[acc' out'] log'].
+      destruct out; auto. simpl. destruct IH as [IL IH]. split; auto.
       destruct (gather os'); auto. destruct IH as [-> ->]. split; auto. rewrite <- app_assoc; auto.
     + destruct out.
-      * specialize (IH os' acc (Some o) (S log) eq_refl).
-        destruct (m_loop ins cs acc (Some o) (S log)) as [[acc' out'] log']. auto.
+      * specialize (IH os' acc (Some o) (if is_quiet qs e then log else S log) eq_refl).
+        destruct (m_loop qs ins cs acc (Some o) (if is_quiet qs e then log else S log)) as [[acc' out'] log'].
+        simpl. destruct IH as [-> ->]. split; auto. destruct (is_quiet qs e); lia.
       * specialize (IH os' acc (Some (Exn e)) log eq_refl).
-        destruct (m_loop ins cs acc (Some (Exn e)) log) as [[acc' out'] log']. simpl. auto.
+        destruct (m_loop qs ins cs acc (Some (Exn e)) log) as [[acc' out'] log']. simpl. tauto.
     + destruct out.
-      * specialize (IH os' acc (Some o) (S log) eq_refl).
-        destruct (m_loop ins cs acc (Some o) (S log)) as [[acc' out'] log']. auto.
+      * specialize (IH os' acc (Some o) (if is_quiet qs ECancelled then log else S log) eq_refl).
+        destruct (m_loop qs ins cs acc (Some o) (if is_quiet qs ECancelled then log else S log)) as [[acc' out'] log'].
+        simpl. destruct IH as [-> ->]. split; auto. destruct (is_quiet qs ECancelled); lia.
       * specialize (IH os' acc (Some (Exn ECancelled)) log eq_refl).
-        destruct (m_loop ins cs acc (Some (Exn ECancelled)) log) as [[acc' out'] log']. simpl. auto.
+        destruct (m_loop qs ins cs acc (Some (Exn ECancelled)) log) as [[acc' out'] log']. simpl. tauto.
 Qed.
 
 Lemma gather_not_cancelled os : gather os <> Cancelled.
@@ -93,7 +96,11 @@ Record MInv (q : list nat) (w : mstate) : Prop := {
   mi_q_done : forall c, In c q -> isdone (m_ins w) c = true;
   mi_err : m_err w = 0;
   mi_live : m_unf w = [] -> m_out w <> None;
-  mi_safe : forall o, m_out w = Some o -> o <> Cancelled -> expected (m_ins w) (m_children w) = Some o
+  mi_safe : forall o, m_out w = Some o -> o <> Cancelled -> expected (m_ins w) (m_children w) = Some o;
+  mi_settled : forall o, m_out w = Some o -> o <> Cancelled -> m_unf w = [];
+  mi_log0 : m_out w = None -> m_log w = 0;
+  mi_log : forall o, m_out w = Some o -> o <> Cancelled ->
+           exists os, child_outs (m_ins w) (m_children w) = Some os /\ m_log w = extra_logged (m_quiet w) os
 }.
 
 Lemma m_callback_fields w f :
@@ -120,8 +127,8 @@ Proof.
       - apply (mi_q_done _ _ I). simpl; auto.
       - assert (In c (removeb f (m_unf w))) by (apply removeb_In; auto). rewrite R in H. destruct H. }
     destruct (child_outs_all_done _ _ AD) as [os Eos].
-    pose proof (m_loop_spec (m_ins w) (m_children w) os [] (m_out w) (m_log w) Eos) as L.
-    destruct (m_loop (m_ins w) (m_children w) [] (m_out w) (m_log w)) as [[acc out] log].
+    pose proof (m_loop_spec (m_quiet w) (m_ins w) (m_children w) os [] (m_out w) (m_log w) Eos) as L.
+    destruct (m_loop (m_quiet w) (m_ins w) (m_children w) [] (m_out w) (m_log w)) as [[acc out] log].
     constructor; simpl.
     + apply (mi_bound _ _ I).
     + intros c [].
@@ -136,12 +143,19 @@ Proof.
     + intros _. destruct out; discriminate.
     + intros o Ho NC. unfold expected. rewrite Eos. simpl.
       destruct (m_out w) as [x|] eqn:EO.
-      * subst out. inversion Ho; subst.
+      * destruct L as [L1 L2]. subst out. inversion Ho; subst.
         pose proof (mi_safe _ _ I o EO NC) as S. unfold expected in S. rewrite Eos in S. auto.
-      * destruct (gather os) as [l|e|] eqn:G.
-        -- destruct L as [-> ->]. inversion Ho; subst. reflexivity.
+      * destruct L as [L1 L2]. destruct (gather os) as [l|e|] eqn:G.
+        -- destruct L2 as [-> ->]. inversion Ho; subst. reflexivity.
         -- subst out. inversion Ho; subst. reflexivity.
-        -- destruct L.
+        -- destruct L2.
+    + auto.
+    + intros X. destruct out; discriminate.
+    + intros o Ho NC. exists os. split; auto.
+      destruct (m_out w) as [x|] eqn:EO.
+      * destruct L as [L1 L2]. subst out. inversion Ho; subst.
+        pose proof (mi_settled _ _ I o EO NC) as U. rewrite U in Hf. discriminate.
+      * destruct L as [L1 L2]. rewrite L1, (mi_log0 _ _ I EO). reflexivity.
   - rewrite <- R. constructor; simpl.
     + apply (mi_bound _ _ I).
     + intros c Hc. apply removeb_In in Hc. apply (mi_unf_child _ _ I). tauto.
@@ -155,11 +169,14 @@ Proof.
     + apply (mi_err _ _ I).
     + rewrite R. discriminate.
     + apply (mi_safe _ _ I).
+    + intros o Ho NC. pose proof (mi_settled _ _ I o Ho NC) as U. rewrite U in Hf. discriminate.
+    + apply (mi_log0 _ _ I).
+    + apply (mi_log _ _ I).
 Qed.
 
 Lemma MInv_ready_irrel q w r :
-  MInv q w -> MInv q (mkM (m_ins w) (m_children w) (m_unf w) r (m_out w) (m_log w) (m_err w)).
-Proof. intros [A B C D E F G H J K]. constructor; simpl; auto. Qed.
+  MInv q w -> MInv q (mkM (m_quiet w) (m_ins w) (m_children w) (m_unf w) r (m_out w) (m_log w) (m_err w)).
+Proof. intros [A B C D E F G H J K L M N]. constructor; simpl; auto. Qed.
 
 Lemma m_register_inv todo : forall w,
   MInv (filter (isdone (m_ins w)) todo) w -> MInv [] (m_register w todo).
@@ -180,16 +197,16 @@ Proof.
   - apply IH.
 Qed.
 
-Lemma m_create_fields ins ch :
-  m_ins (m_create ins ch) = ins /\ m_children (m_create ins ch) = ch /\ m_ready (m_create ins ch) = [].
+Lemma m_create_fields qs ins ch :
+  m_ins (m_create qs ins ch) = ins /\ m_children (m_create qs ins ch) = ch /\ m_ready (m_create qs ins ch) = [].
 Proof.
   unfold m_create.
   match goal with |- context [m_register ?w0 ?t] => destruct (m_register_fields t w0) as [E1 [E2 E3]] end.
   rewrite E1, E2, E3. auto.
 Qed.
 
-Lemma m_create_inv ins ch :
-  Forall (fun c => c < length ins) ch -> MInv [] (m_create ins ch).
+Lemma m_create_inv qs ins ch :
+  Forall (fun c => c < length ins) ch -> MInv [] (m_create qs ins ch).
 Proof.
   intros B. unfold m_create. apply m_register_inv. simpl.
   constructor; simpl; auto.
@@ -202,6 +219,8 @@ Proof.
   - intros c Hc. apply filter_In in Hc. tauto.
   - destruct ch; simpl; discriminate.
   - intros o Ho _. destruct ch; try discriminate. inversion Ho; subst. reflexivity.
+  - intros o Ho _. destruct ch; try discriminate. reflexivity.
+  - intros o Ho _. destruct ch; try discriminate. inversion Ho; subst. exists []. split; reflexivity.
 Qed.
 
 Lemma m_step_inv w e : MInv (m_ready w) w -> MInv (m_ready (m_step w e)) (m_step w e).
@@ -235,13 +254,24 @@ Proof.
     + apply (mi_err _ _ I).
     + apply (mi_live _ _ I).
     + intros x Hx NC. apply expected_stable; auto. apply (mi_safe _ _ I); auto.
-  - destruct I as [A B C D E F G H J K]. constructor; simpl; auto.
+    + apply (mi_settled _ _ I).
+    + apply (mi_log0 _ _ I).
+    + intros x Hx NC. destruct (mi_log _ _ I x Hx NC) as [os [E1 E2]]. exists os. split; auto.
+      apply child_outs_stable; auto.
+  - destruct I as [A B C D E F G H J K L M N]. constructor; simpl; auto.
     + intros U. apply settle_done.
     + intros o Ho NC. destruct (m_out w) eqn:EO; simpl in Ho.
       * apply K; auto.
       * inversion Ho; subst. congruence.
+    + intros o Ho NC. destruct (m_out w) eqn:EO; simpl in Ho.
+      * eapply L; eauto.
+      * inversion Ho; subst. congruence.
+    + intros X. exfalso. eapply settle_done; eauto.
+    + intros o Ho NC. destruct (m_out w) eqn:EO; simpl in Ho.
+      * apply (N o); auto.
+      * inversion Ho; subst. congruence.
   - destruct (m_ready w) as [|f r] eqn:R; [rewrite R; auto|].
-    destruct (m_callback_fields (mkM (m_ins w) (m_children w) (m_unf w) r (m_out w) (m_log w) (m_err w)) f) as [_ [_ ->]].
+    destruct (m_callback_fields (mkM (m_quiet w) (m_ins w) (m_children w) (m_unf w) r (m_out w) (m_log w) (m_err w)) f) as [_ [_ ->]].
     simpl. apply m_callback_inv. apply MInv_ready_irrel. auto.
 Qed.
 
@@ -254,7 +284,7 @@ Proof.
   destruct e; simpl; auto.
   - destruct (pending (m_ins w) i); auto.
   - destruct (m_ready w); auto.
-    destruct (m_callback_fields (mkM (m_ins w) (m_children w) (m_unf w) l (m_out w) (m_log w) (m_err w)) n) as [-> [-> _]]. auto.
+    destruct (m_callback_fields (mkM (m_quiet w) (m_ins w) (m_children w) (m_unf w) l (m_out w) (m_log w) (m_err w)) n) as [-> [-> _]]. auto.
 Qed.
 
 Lemma m_run_ins es : forall w,
@@ -265,9 +295,9 @@ Proof.
 Qed.
 
 (* ---------- a cancelled output can only come from the consumer ---------- *)
-Lemma m_loop_notc ins cs : forall acc out log,
+Lemma m_loop_notc qs ins cs : forall acc out log,
   out <> Some Cancelled ->
-  match m_loop ins cs acc out log with (_, out', _) => out' <> Some Cancelled end.
+  match m_loop qs ins cs acc out log with (_, out', _) => out' <> Some Cancelled end.
 Proof.
   induction cs as [|c cs IH]; intros acc out log H; simpl; auto.
   destruct (result_of ins c); [apply IH; auto|].
@@ -278,7 +308,7 @@ Lemma m_callback_notc w f : m_out w <> Some Cancelled -> m_out (m_callback w f) 
 Proof.
   intros H. unfold m_callback. destruct (negb (memb f (m_unf w))); simpl; auto.
   destruct (removeb f (m_unf w)); simpl; auto.
-  pose proof (m_loop_notc (m_ins w) (m_children w) [] (m_out w) (m_log w) H) as L.
+  pose proof (m_loop_notc (m_quiet w) (m_ins w) (m_children w) [] (m_out w) (m_log w) H) as L.
   destruct (m_loop _ _ _ _ _) as [[a o] l]; simpl. destruct o; auto. discriminate.
 Qed.
 
@@ -288,7 +318,7 @@ Proof.
   apply IH. destruct (isdone (m_ins w) c); auto. apply m_callback_notc; auto.
 Qed.
 
-Lemma m_create_notc ins ch : m_out (m_create ins ch) <> Some Cancelled.
+Lemma m_create_notc qs ins ch : m_out (m_create qs ins ch) <> Some Cancelled.
 Proof. unfold m_create. apply m_register_notc. simpl. destruct ch; discriminate. Qed.
 
 Lemma m_run_cancel_origin es : forall w,
@@ -329,34 +359,54 @@ Qed.
 Lemma m_run_app w es1 es2 : m_run w (es1 ++ es2) = m_run (m_run w es1) es2.
 Proof. unfold m_run. apply fold_left_app. Qed.
 
+Lemma m_callback_quiet w f : m_quiet (m_callback w f) = m_quiet w.
+Proof.
+  unfold m_callback. destruct (negb (memb f (m_unf w))); simpl; auto.
+  destruct (removeb f (m_unf w)); simpl; auto.
+  destruct (m_loop _ _ _ _ _ _) as [[a o] l]; simpl; auto.
+Qed.
+Lemma m_register_quiet todo : forall w, m_quiet (m_register w todo) = m_quiet w.
+Proof.
+  induction todo as [|c todo IH]; intros w; simpl; auto. rewrite IH.
+  destruct (isdone (m_ins w) c); auto. apply m_callback_quiet.
+Qed.
+Lemma m_step_quiet w e : m_quiet (m_step w e) = m_quiet w.
+Proof.
+  destruct e; simpl; auto.
+  - destruct (pending (m_ins w) i); auto.
+  - destruct (m_ready w); auto. rewrite m_callback_quiet. auto.
+Qed.
+Lemma m_run_quiet es : forall w, m_quiet (m_run w es) = m_quiet w.
+Proof. induction es as [|e es IH]; intros w; simpl; auto. rewrite IH. apply m_step_quiet. Qed.
+
 (* ---------- main statements ---------- *)
 Section Main.
-Variables (ins : futs) (children : list nat).
+Variables (qs : list qclass) (ins : futs) (children : list nat).
 Hypothesis bound : Forall (fun c => c < length ins) children.
 
-Lemma multi_reach es : let w := m_run (m_create ins children) es in MInv (m_ready w) w.
+Lemma multi_reach es : let w := m_run (m_create qs ins children) es in MInv (m_ready w) w.
 Proof.
-  simpl. apply m_run_inv. destruct (m_create_fields ins children) as [_ [_ ->]].
+  simpl. apply m_run_inv. destruct (m_create_fields qs ins children) as [_ [_ ->]].
   apply m_create_inv; auto.
 Qed.
 
 Lemma multi_view es :
-  m_ins (m_run (m_create ins children) es) = final_ins ins es /\
-  m_children (m_run (m_create ins children) es) = children.
+  m_ins (m_run (m_create qs ins children) es) = final_ins ins es /\
+  m_children (m_run (m_create qs ins children) es) = children.
 Proof.
-  destruct (m_run_ins es (m_create ins children)) as [-> ->].
-  destruct (m_create_fields ins children) as [-> [-> _]]. auto.
+  destruct (m_run_ins es (m_create qs ins children)) as [-> ->].
+  destruct (m_create_fields qs ins children) as [-> [-> _]]. auto.
 Qed.
 
 (* quiescent + every child done => the output is done *)
 Lemma multi_live es :
-  let w := m_run (m_create ins children) es in
+  let w := m_run (m_create qs ins children) es in
   m_ready w = [] -> expected (final_ins ins es) children <> None -> m_out w <> None.
 Proof.
   simpl. intros Q E. pose proof (multi_reach es) as I. simpl in I.
   destruct (multi_view es) as [Vi Vc]. rewrite Q in I.
   apply (mi_live _ _ I).
-  destruct (m_unf (m_run (m_create ins children) es)) as [|c u] eqn:U; auto. exfalso.
+  destruct (m_unf (m_run (m_create qs ins children) es)) as [|c u] eqn:U; auto. exfalso.
   destruct (mi_unf_cases _ _ I c) as [P|[]]. rewrite U; simpl; auto.
   assert (Hc : In c children). { rewrite <- Vc. apply (mi_unf_child _ _ I). rewrite U; simpl; auto. }
   unfold expected in E. destruct (child_outs (final_ins ins es) children) eqn:CO; [|apply E; reflexivity].
@@ -364,7 +414,7 @@ Proof.
 Qed.
 
 Lemma multi_safe es o :
-  m_out (m_run (m_create ins children) es) = Some o ->
+  m_out (m_run (m_create qs ins children) es) = Some o ->
   (o = Cancelled /\ In CancelOut es) \/ expected (final_ins ins es) children = Some o.
 Proof.
   intros H. pose proof (multi_reach es) as I. simpl in I. destruct (multi_view es) as [Vi Vc].
@@ -374,17 +424,32 @@ Proof.
   - left. split; auto. eapply m_run_cancel_origin; eauto. apply m_create_notc.
 Qed.
 
-Lemma multi_noerr es : m_err (m_run (m_create ins children) es) = 0.
+(* logging: nothing while pending; once settled (not by the consumer) exactly the
+   failures after the first one that are not quiet have been logged *)
+Lemma multi_log es :
+  let w := m_run (m_create qs ins children) es in
+  (m_out w = None -> m_log w = 0) /\
+  (forall o, m_out w = Some o -> o <> Cancelled ->
+     exists os, child_outs (final_ins ins es) children = Some os /\ m_log w = extra_logged qs os).
+Proof.
+  simpl. pose proof (multi_reach es) as I. simpl in I. destruct (multi_view es) as [Vi Vc].
+  split; [apply (mi_log0 _ _ I)|].
+  intros o Ho NC. destruct (mi_log _ _ I o Ho NC) as [os [E1 E2]].
+  rewrite Vi, Vc in E1. rewrite m_run_quiet in E2. unfold m_create in E2. rewrite m_register_quiet in E2.
+  simpl in E2. eauto.
+Qed.
+
+Lemma multi_noerr es : m_err (m_run (m_create qs ins children) es) = 0.
 Proof. apply (mi_err _ _ (multi_reach es)). Qed.
 
 (* after the inputs are done, finitely many loop steps settle the output *)
 Lemma multi_settles es :
-  let w := m_run (m_create ins children) es in
+  let w := m_run (m_create qs ins children) es in
   expected (final_ins ins es) children <> None ->
   m_out (m_run w (repeat Step (length (m_ready w)))) <> None.
 Proof.
   simpl. intros E.
-  set (k := length (m_ready (m_run (m_create ins children) es))).
+  set (k := length (m_ready (m_run (m_create qs ins children) es))).
   rewrite <- m_run_app. apply multi_live.
   - rewrite m_run_app. apply m_drain. unfold k. lia.
   - rewrite final_ins_app.
